@@ -408,6 +408,11 @@ func (b *StatefulBlock[I, O, A]) notifyAccepted(ctx context.Context) error {
 //
 // [Decidable]: https://github.com/ava-labs/avalanchego/blob/abb1a9a6a21c3dbce6dff5cdcea03173119a5f46/snow/decidable.go#L16
 func (b *StatefulBlock[I, O, A]) Reject(ctx context.Context) error {
+	// Like Verify and Accept, Reject must not interleave with FinishStateSync, which snapshots
+	// the processing blocks, re-verifies them and only then starts tracking their rejection.
+	b.vm.chainLock.Lock()
+	defer b.vm.chainLock.Unlock()
+
 	ctx, span := b.vm.tracer.Start(ctx, "StatefulBlock.Reject")
 	defer span.End()
 
